@@ -29,3 +29,12 @@ def run(ctx):
     hpackrules.resumability(r, F)
     r = ctx.rule('C11.R6', 'PAIR', 'decoder dynamic-table accounting is paired')
     hpackrules.table_accounting(r, F)
+
+
+_run_rules = run
+
+
+def run(ctx):
+    _run_rules(ctx)
+    from .. import boundaries
+    boundaries.check(ctx, 'C11.RB', 'C11')
